@@ -5,6 +5,8 @@ behind tiny-std's Mutex), prints VmSize from /proc/self/statm; (2) engines/h_all
 single-threaded workloads on a private Dlmalloc and prints verif_stats().footprint (the allocator's own figure)
 next to the process' VmSize. Workload families:
   repeat  : allocate-then-free-everything shapes x free orders x threads, sampled at quiescence after every repetition
+            (incl. realloc ladders on blocks aligned to 32/64/128/4096: doubling, small steps, halving, exact shrink,
+            grow-shrink cycles - raw realloc with over-aligned layouts, and Vec<#[repr(align(N))]> push / shrink_to_fit / drop)
   steady  : a BOUNDED live set (<= 64 objects) of fixed-size / few-size objects replaced one by one (FIFO / LIFO bursts /
             random) for >= 20000 steps, after a primer that carves a freed block so that the remainder (dv, or a binned
             chunk) is exactly / one granule below / above the hot chunk size; sampled with the live set full
@@ -34,11 +36,14 @@ PAGE = 4096
 W = 3
 S = 2 * 1024 * 1024 + 64 * 1024
 STACK = 2 * 1024 * 1024 + 64 * 1024
-SHAPES = ["small", "large", "mixed", "overaligned", "ladder", "round"]
+SHAPES = ["small", "large", "mixed", "overaligned", "ladder", "round", "aladder", "vecalign"]
+PROBE_ONLY = {"vecalign"}  # Vec<#[repr(align(N))]> needs the global allocator
 ORDERS = ["lifo", "fifo", "random"]
 # repetitions per shape: (quick, thorough single-threaded, thorough threaded)
 REPS = {"small": (3000, 60000, 60000), "overaligned": (1500, 8000, 20000), "mixed": (500, 4000, 4000),
-        "ladder": (120, 1500, 1500), "large": (200, 2000, 2000), "round": (150, 1500, 1500)}
+        "ladder": (120, 1500, 1500), "large": (200, 2000, 2000), "round": (150, 1500, 1500),
+        "aladder": (300, 3000, 3000), "vecalign": (400, 4000, 4000)}
+STEADY_ALIGNS = [32, 64, 128, 4096]
 # hot chunk sizes of the steady-state family: small-bin classes (< 256) and tree-bin classes
 STEADY_CHUNKS_QUICK = [48, 240, 272, 1024, 4112, 16384]
 STEADY_CHUNKS_THOROUGH = [32, 48, 64, 128, 240, 256, 272, 384, 512, 768, 1024, 1536, 2048, 4112, 8192, 16384, 65536]
@@ -142,10 +147,10 @@ def run(ck, replay=None):
             st = wl["steady"]
             if wl["runner"] == "probe":
                 argv = [probe, "steady", str(st["chunk"]), str(st["mix"]), wl["order"], st["primer"], str(st["delta"]),
-                        str(wl["threads"]), str(wl["reps"]), str(wl["seed"])]
+                        str(wl["threads"]), str(wl["reps"]), str(wl["seed"]), str(st.get("align", 8))]
             else:
                 argv = [harn, "fp", str(wl["seed"]), str(wl["reps"]), "steady", str(st["chunk"]), str(st["mix"]), wl["order"],
-                        st["primer"], str(st["delta"])]
+                        st["primer"], str(st["delta"]), str(st.get("align", 8))]
         elif wl["runner"] == "probe":
             argv = [probe, wl["shape"], wl["order"], str(wl["threads"]), str(wl["reps"]), str(wl["seed"]), mode]
         else:
@@ -179,7 +184,8 @@ def run(ck, replay=None):
             for order in ORDERS:
                 seed = rng.randrange(1, 1 << 30)
                 add(base("probe", shape, order, 1, "own", q if quick else t1, seed))
-                add(base("harness", shape, order, 1, "own", q if quick else t1, seed))
+                if shape not in PROBE_ONLY:
+                    add(base("harness", shape, order, 1, "own", q if quick else t1, seed))
             combos = [(2, "own", "random"), (4, "handoff", "fifo"), (8, "own", "lifo")] if quick else \
                      [(t, m, o) for t in (2, 3, 4, 8) for m in ("own", "handoff") for o in ORDERS]
             for threads, mode, order in combos:
@@ -196,6 +202,19 @@ def run(ck, replay=None):
                         st = dict(chunk=chunk, mix=mix, primer=primer, delta=delta)
                         for runner in ("probe", "harness"):
                             add(base(runner, "steady", order, 1, "own", 3 if quick else 10, seed, steady=st))
+        # realloc-driven churn inside the bounded live set, objects aligned to 8 (in-place / malloc-copy-free of inner_realloc)
+        # and to 32..4096 (allocate-copy-free branch of realloc)
+        for chunk in ((272, 4112) if quick else (64, 272, 1024, 4112, 16384)):
+            for ai, align in enumerate([8] + STEADY_ALIGNS):
+                for oi, order in enumerate(ORDERS):
+                    if quick and (ai + oi) % 3 != 0:
+                        continue
+                    seed = rng.randrange(1, 1 << 30)
+                    st = dict(chunk=chunk, mix=2, primer="dv" if (ai + oi) % 2 else "none", delta=0, align=align)
+                    for runner in ("probe", "harness"):
+                        add(base(runner, "steady", order, 1, "own", 3 if quick else 10, seed, steady=st))
+        st = dict(chunk=1024, mix=2, primer="none", delta=0, align=64)
+        add(base("probe", "steady", "random", 3, "own", 2 if quick else 6, rng.randrange(1, 1 << 30), steady=st))
         for chunk, threads, order in ([(1024, 2, "fifo"), (272, 4, "random")] if quick else
                                       [(c, t, o) for c in (64, 272, 1024, 4112) for t in (2, 4, 8) for o in ORDERS]):
             st = dict(chunk=chunk, mix=0, primer="dv", delta=0)
@@ -234,7 +253,7 @@ def run(ck, replay=None):
         fam = family(wl)
         st = wl.get("steady")
         label = "%s %s %s/%s/t%d%s%s" % (fam, wl["runner"], wl["shape"], wl["order"], wl["threads"],
-                                         "/chunk%d/%s%+d/mix%d" % (st["chunk"], st["primer"], st["delta"], st["mix"]) if st else "",
+                                         "/chunk%d/%s%+d/mix%d/a%d" % (st["chunk"], st["primer"], st["delta"], st["mix"], st.get("align", 8)) if st else "",
                                          "/inject " + ",".join(wl["inject"]) if wl.get("inject") else "")
         if r["timed_out"] or r["rc"] == 124:
             ck.note_inconclusive("%s: watchdog after %.0fs" % (label, r["wall"]))
@@ -310,8 +329,8 @@ def run(ck, replay=None):
         trimmed = "retains" if min(held[W:]) > S else "trims"
         if st:
             cls = "smallbin" if st["chunk"] < 256 else "treebin"
-            ck.note_distinct("steady/%s/%s/%s%+d/%s/mix%d/t%d/%s/%s" % (wl["runner"], cls, st["primer"], st["delta"], wl["order"], st["mix"],
-                                                                       wl["threads"], "primed" if primed else "unprimed", plateau))
+            ck.note_distinct("steady/%s/%s/%s%+d/%s/mix%d/a%d/t%d/%s/%s" % (wl["runner"], cls, st["primer"], st["delta"], wl["order"], st["mix"],
+                                                                           st.get("align", 8), wl["threads"], "primed" if primed else "unprimed", plateau))
         elif wl.get("inject"):
             kinds = "+".join(sorted("%s:%s" % (syslog.NAME.get(int(x.split(":")[3])), "all" if int(x.split(":")[6]) >= ALL else "kth") for x in wl["inject"]))
             ck.note_distinct("faults/%s/%s/t%d/%s/%s/%s" % (wl["runner"], wl["shape"], wl["threads"], kinds, "hit" if ninj else "not-reached", plateau))
@@ -342,10 +361,12 @@ def run(ck, replay=None):
               "prepared block's address, otherwise the heap's leftovers are kept and the attempt repeated; a primer that never lands is counted, not judged")
     ck.assume("failures of mremap/munmap are produced by sysmon (the call is not executed and returns -ENOMEM/-EFAULT/-EINVAL), for all calls or "
               "the k-th call after the workload's BEGIN marker; munmap is not failed in threaded probes (threads unmap their own stacks with it)")
-    return ("three families: (repeat) shape {small, large, mixed, over-aligned, realloc ladder, round} x free order {LIFO, FIFO, pseudo-random "
+    return ("three families: (repeat) shape {small, large, mixed, over-aligned, realloc ladder, round, realloc ladder on 32..4096-aligned blocks, "
+            "Vec of over-aligned records} x free order {LIFO, FIFO, pseudo-random "
             "reseeded per repetition} x {1 thread; 2-8 threads freeing their own blocks or handing them to main}, N repetitions (quick 120-3000, "
             "thorough up to 60000); (steady) hot chunk size over small-bin and tree-bin classes x primer {remainder -> dv, -> bin, none} x "
-            "remainder {exact, -16, +16} x replacement {FIFO, LIFO bursts, random} x {fixed size, few sizes}, >= 20000 steps per repetition, "
+            "remainder {exact, -16, +16} x replacement {FIFO, LIFO bursts, random} x {fixed size, few sizes, few sizes + realloc of live objects "
+            "with alignment 8/32/64/128/4096}, >= 20000 steps per repetition, "
             "1 and 2-8 threads; (faults) large shapes with mremap/munmap failed by the monitor (all calls / k-th call / both); single-threaded "
             "cases on the global allocator (VmSize) and on a private Dlmalloc (footprint next to VmSize); distinct = (family, runner, shape or "
             "chunk class, primer, order, threads, hand-off, fault kind reached or not, plateau class) cells")
